@@ -213,7 +213,7 @@ func fsRequests(quick bool) []harness.Req {
 		out = append(out, harness.Req{Method: "DELETE", Path: p, Raw: true})
 	}
 	// names that need escaping: every method, and COPY/MOVE with escaped Destination headers
-	special := []string{"/a%41", "/100%", "/100%/a b", "/é", "/aA", "/100%/new%2f", "/a b", "/a", "/ab", "/a.bak", "/a/..b", "/..a", "/a/a..", "/..a/c"}
+	special := []string{"/a%41", "/100%", "/100%/a b", "/é", "/aA", "/100%/new%2f", "/a b", "/a", "/ab", "/a.bak", "/a/..b", "/..a", "/a/a..", "/..a/c", "/c+d", "/a;b=c,d&e"}
 	for _, p := range special {
 		for _, m := range []string{"GET", "HEAD", "DELETE", "MKCOL", "OPTIONS"} {
 			out = append(out, harness.Req{Method: m, Path: p})
